@@ -268,6 +268,14 @@ XercesParserLiaison::destroyDocument(XalanDocument*     theDocument)
 
     if (i != m_documentMap.end())
     {
+        // A document the liaison parsed owns its Xerces document,
+        // just as in reset()...
+        if ((*i).second.isDeprecated() == false &&
+            (*i).second.isOwned() == true)
+        {
+            delete (*i).second.m_wrapper->getXercesDocument();
+        }
+
         const XalanMemMgrAutoPtr<XalanDocument>     theGuard(
                                                         m_documentMap.getMemoryManager(),
                                                         theDocument);
@@ -337,14 +345,22 @@ void
 XercesParserLiaison::destroyDocument(DOMDocument_Type*  theDocument)
 {
     // Delete any live documents...
-    for(DocumentMapType::iterator i = m_documentMap.begin();
-        i != m_documentMap.end();
-        ++i)
+    DocumentMapType::iterator   i = m_documentMap.begin();
+
+    while(i != m_documentMap.end())
     {
         if ((*i).second.isDeprecated() == false &&
             (*i).second.m_wrapper->getXercesDocument() == theDocument)
         {
+            // This erases the entry, so the iterator is no longer
+            // valid: start again.
             destroyDocument((XalanDocument*)(*i).first);
+
+            i = m_documentMap.begin();
+        }
+        else
+        {
+            ++i;
         }
     }
 }
